@@ -17,10 +17,11 @@ package idna
 //                     and ToASCII(ToUnicode(x)) == ToASCII(x); the same for "xn--"+p restricted as in VerifC50_alabel.
 //
 //   VerifC50_surrogate Punycode around the surrogate range (needs 4 digits, beyond VerifC50_decenc's enumeration): payloads
-//                     d+"b9b" with d enumerated over [a-z0-9] decode to U+D7F8..U+D81B; encode(decode(s)) == s, and for
+//                     d+"b9b" with d enumerated over [a-z0-9] denote U+D7F8..U+D81B (reference decoder c50refDecode): surrogates are rejected, scalars round-trip, and for
 //                     the non-validating profiles (Punycode, New()) ToASCII idempotence and ToASCII(ToUnicode(x)).
 //
-// Known findings C50-ascii-alabel and C50-surrogate-payload: see known_findings.txt and repro/C50.
+// Known finding C50-ascii-alabel: see known_findings.txt and repro/C50. C50-surrogate-payload (decode returned U+FFFD
+// for a payload that encodes a surrogate) was found by VerifC50_surrogate and is fixed in /repo (3484f90).
 //
 // Sensitivity (mut.sh):
 //   punycode.go decode `if digit < t {` -> `<=`                                     caught (encdec)
@@ -214,23 +215,101 @@ func VerifC50_idem() {
 	vfReach("end")
 }
 
+// c50refDecode: reference decoder for payloads made only of digits (no basic code points, RFC 3492 6.2), returning the
+// code points as integers (no conversion to string, so a surrogate stays visible) and ok=false for a malformed integer.
+func c50refDecode(p string) (cps []int, ok bool) {
+	n, i, bias := 128, 0, 72
+	pos := 0
+	for pos < len(p) {
+		oldI, w := i, 1
+		for k := 36; ; k += 36 {
+			if pos == len(p) {
+				return nil, false
+			}
+			c := p[pos]
+			pos++
+			d := 0
+			switch {
+			case 'a' <= c && c <= 'z':
+				d = int(c - 'a')
+			case '0' <= c && c <= '9':
+				d = int(c-'0') + 26
+			default:
+				return nil, false
+			}
+			i += d * w
+			t := k - bias
+			if k <= bias {
+				t = 1
+			} else if k >= bias+26 {
+				t = 26
+			}
+			if d < t {
+				break
+			}
+			w *= 36 - t
+		}
+		x := len(cps) + 1
+		// adapt
+		delta := i - oldI
+		if oldI == 0 {
+			delta /= 700
+		} else {
+			delta /= 2
+		}
+		delta += delta / x
+		k := 0
+		for delta > ((36-1)*26)/2 {
+			delta /= 36 - 1
+			k += 36
+		}
+		bias = k + (36*delta)/(delta+38)
+		n += i / x
+		i %= x
+		cps = append(cps, 0)
+		copy(cps[i+1:], cps[i:])
+		cps[i] = n
+		i++
+	}
+	return cps, true
+}
+
 func VerifC50_surrogate() {
 	p := c50digits(1) + "b9b"
-	u, err := decode(p)
-	vfAssert(err == nil, "these payloads are well-formed generalised variable-length integers")
-	hasFFFD := false
-	for _, r := range u {
-		if r == 0xfffd {
-			hasFFFD = true
+	cps, refOK := c50refDecode(p)
+	vfAssert(refOK, "these payloads are well-formed generalised variable-length integers")
+	surrogate := false
+	for _, c := range cps {
+		if 0xd800 <= c && c <= 0xdfff {
+			surrogate = true
 		}
 	}
-	e, err2 := encode("", u)
-	if !hasFFFD {
-		vfReach("scalar") // (paths with a surrogate end at the known-finding assertion: witnessed by the KNOWN-FINDING line)
-	}
+	u, err := decode(p)
 	prof := c50profile(4 * vfChoice("profile", 2)) // Punycode or New(): no label validation
 	x := "xn--" + p
 	a1, errA := prof.ToASCII(x)
+	if surrogate {
+		// a surrogate is not a Unicode scalar value: the payload is invalid Punycode (RFC 3492 6.2 "fail if n is not a
+		// code point the decoder can represent"; before fix 3484f90 decode returned U+FFFD for it: fixed finding
+		// C50-surrogate-payload)
+		vfAssert(err != nil, "decode rejects a payload that encodes a surrogate code point")
+		vfAssert(errA != nil, "ToASCII rejects an xn-- label whose payload encodes a surrogate code point")
+		vfReach("surrogate")
+		vfReach("end")
+		return
+	}
+	vfAssert(err == nil, "decode accepts a payload that encodes scalar values")
+	k := 0
+	same := true
+	for _, r := range u {
+		if k >= len(cps) || int(r) != cps[k] {
+			same = false
+		}
+		k++
+	}
+	vfAssert(same && k == len(cps), "decode returns the code points of the reference decoder")
+	e, err2 := encode("", u)
+	vfReach("scalar")
 	if errA == nil {
 		a2, errA2 := prof.ToASCII(a1)
 		vfAssert(errA2 == nil && a2 == a1, "ToASCII(ToASCII(x)) == ToASCII(x)")
@@ -240,8 +319,6 @@ func VerifC50_surrogate() {
 		vfReach("accepted")
 	}
 	vfObserveStr("encoded", e)
-	// kcond: decode produced U+FFFD, i.e. accepted the encoding of a surrogate code point U+D800..U+DFFF
-	// (asserted last: a known-finding path ends at its assertion)
-	vfAssertKF(err2 == nil && e == p, "encode(decode(s)) == s", "C50-surrogate-payload", hasFFFD)
+	vfAssert(err2 == nil && e == p, "encode(decode(s)) == s")
 	vfReach("end")
 }
